@@ -1,4 +1,4 @@
-(* GENEQ lemma=gen_JAL_init_eq requires=gen_JAL_init_rd,gen_JAL_init_imm,gen_JAL_init_abs_addr properties=C01,C02 *)
+(* GENEQ lemma=gen_JAL_init_eq requires=gen_JAL_init_rd,gen_JAL_init_imm,gen_JAL_init_abs_addr properties=C01 *)
 From ArchSimGenEq Require Import GenEqTac.
 From ArchSim Require Import Model.RV Model.RVSplit.
 From ArchSimGen Require Import GenRVTypes GenRV.
